@@ -281,6 +281,20 @@ fn mutate<T: serde::Serialize + serde::de::DeserializeOwned>(t: &Table, r: T, c:
             }
         }
     }
+    // every key-like name the library's sources mention (harvested at build time), present as an otherwise uninterpreted
+    // entry / rule with a small numeric text as its value: the view may not consult any of them behind the fields' back
+    if crate::rsm::pick(c, &[false, true]) {
+        for (ptr, as_list) in [("/unused_entries", false), ("/rules", false), ("/mutators_and_rules/rules", true)] {
+            if let Some(Value::Object(map)) = v.pointer_mut(ptr) {
+                for k in crate::targets::MAGIC_KEYS {
+                    if !map.contains_key(*k) {
+                        map.insert(k.to_string(), if as_list { json!(["4"]) } else { json!("4") });
+                        changed = true;
+                    }
+                }
+            }
+        }
+    }
     if !changed {
         return r;
     }
@@ -429,7 +443,7 @@ impl Prop for C15 {
          (the reference model's expected value, no network); a table written from RESPONSES.md and the type definitions gives, per \
          type, the specific field each generic accessor corresponds to (blank cell and no corresponding field => None): every \
          accessor must return exactly that field's value, as_json() must contain exactly the accessor values, every player's \
-         name/score likewise (also with two equal neighbouring players: the lists have the same length), and as_original() (response and players) must serialise to exactly the original value. \
+         name/score likewise (also with two equal neighbouring players: the lists have the same length), and with every key-like string literal of the library's sources (harvested at build time) present as an uninterpreted entry / rule, and as_original() (response and players) must serialise to exactly the original value. \
          distinct_nontrivial = distinct response values"
             .into()
     }
